@@ -13,6 +13,8 @@ def errname(e):
     msg = str(e)
     if isinstance(e, RuntimeError) and "before it is started" in msg:
         return "RuntimeError:join-before-start"
+    if isinstance(e, RuntimeError) and "can only be started once" in msg:
+        return "RuntimeError:start-twice"
     return type(e).__name__
 
 
@@ -38,9 +40,64 @@ def explore(graph, prog, max_preempt, workdir, limit=4000, variant="terminology"
     return out
 
 
+def behaviours(graph, prog, cache, n, seed, wd):
+    """spec -> code: n behaviours of OdmlLoader from TLC's simulation mode (LoaderBeh: the model with a history
+    variable holding the observable events; one JSON line per terminal state)"""
+    meta = C.fresh_dir(os.path.join(wd, "meta_beh"))
+    env = dict(os.environ, GRAPH=graph, PROG=prog, KNOWN="known", CACHE=cache)
+    cmd = C.tlc_cmd("LoaderBeh.tla", "LoaderBeh.cfg", 1, meta, xmx="2g",
+                    extra=["-simulate", "num=%d" % n, "-depth", "5000", "-seed", str(seed)])
+    p = subprocess.run(cmd, cwd=C.SPEC, env=env, stdout=subprocess.PIPE, stderr=subprocess.STDOUT, text=True, timeout=900)
+    out = [C.decode(l) for l in p.stdout.splitlines() if l.startswith('"{')]
+    if not out or "Error:" in p.stdout:
+        raise C.MachineryError("LoaderBeh simulation produced no behaviour for %s %s %s:\n%s" % (graph, prog, cache, p.stdout[-1500:]))
+    seen, uniq = set(), []
+    for b in out:
+        key = json.dumps(b["hist"])
+        if key not in seen:
+            seen.add(key)
+            uniq.append(b)
+    return uniq
+
+
+def replay_behaviours(t, wd):
+    """every behaviour is replayed as a schedule into the real terminology.py: the thread the model moved at each
+    observable event is the thread the scheduler lets run; the record carries the model's event sequence and outcome
+    next to the real ones (compared by JudgeLoader) and all fields of the contract"""
+    graph, prog, cache = t["graph"], t["prog"], t.get("cache", "empty")
+    names = list(sched.GRAPHS[graph])
+    for b in behaviours(graph, prog, cache, t["n"], t.get("seed", 1) + C.seed(), wd):
+        r = sched.run(graph, prog, [e["tid"] for e in b["hist"]], wd, "terminology", cache)
+        errs = [r["errs"][tid] for tid in sorted(r["errs"], key=int)]
+        loads = [x for x in r["results"] if x["op"] == "load" and x["res"] == "ok"]
+        objs = []
+        for x in loads:
+            if x["obj"] not in objs:
+                objs.append(x["obj"])
+        yield {"fam": "loader", "src": "behaviour", "variant": "terminology", "graph": graph, "prog": prog, "prefix": [], "preemptions": -1,
+               "results": r["results"], "errs": errs, "deadlock": r["deadlock"], "cached": r["cached"],
+               "cache": cache, "cache_before": r["cache_before"], "cache_after": r["cache_after"],
+               "fetchok": {x: sched.fetchable(graph, x) for x in names},
+               "expected": {x: sched.expected_sig(graph, x) for x in names},
+               "steps": r["steps"], "trace_checked": False, "trace_accepted": True,
+               "model_log": b["hist"], "real_log": [{"tid": a, "k": k, "u": u, "t": th} for a, k, u, th in r["log"]],
+               "model_terminal": b["terminal"],
+               "model_loads": [{"url": x[0], "none": x[1] == 99, "doc": x[1], "epoch": x[2]} for x in b["results"]],
+               "real_loads": [{"url": x["url"], "none": x["sig"] == "none", "doc": objs.index(x["obj"])} for x in loads],
+               "model_err": [b["err"][kk] for kk in sorted(b["err"], key=int)] if isinstance(b["err"], dict) else list(b["err"]),
+               "real_err": [{"none": "ok", "RuntimeError:join-before-start": "RuntimeError", "RuntimeError:start-twice": "RuntimeError"}.get(e, e) for e in errs],
+               "model_cache": b["cache"],
+               "real_cache": {x: {"current": "fresh", "old": "stale"}.get(v, v) for x, v in r["cache_after"].items()}}
+
+
 def replay(t):
     """t = {graph, prog, max_preempt, sample}: explore and emit one record per execution"""
     graph, prog = t["graph"], t["prog"]
+    if t.get("beh"):
+        wd = os.path.join(os.environ.get("TMPDIR", C.BUILD), "loaderbeh_%d" % os.getpid())
+        for rec in replay_behaviours(t, wd):
+            yield rec
+        return
     wd = os.path.join(os.environ.get("TMPDIR", C.BUILD), "loader_%d" % os.getpid())
     variant = t.get("variant", "terminology")
     cache = t.get("cache", "empty")
